@@ -6,7 +6,7 @@
      table_ok wt r      distinct valid pids, position-independent value writers, and
                         tbl_fits wt r: every emitted value is <= 65535 bytes once padded to 4
      rows_read_back     every read row gives its field back from the values emitted under its pid
-     params_bytes ps    wire bytes of the parameters ps = [(pid, value); ...] (little endian)
+     params_bytes be ps wire bytes of the parameters ps = [(pid, value); ...], big endian if be
      item_ok (pid, v)   pid is an i16 other than PID_SENTINEL, blen v <= 65535
      wf_topic / wf_dwriter / wf_dreader / wf_participant   what the Rust types guarantee, plus
                         consistency of the fields that are NOT transmitted
@@ -23,9 +23,15 @@ Theorem C13_write_parameter_shape : forall buf pid (w : wr),
   = buf ++ le_bytes 2 (wrap_u16 pid) ++ le_bytes 2 (wrap_u16 (blen (padv (w (blen buf + 4))))) ++ padv (w (blen buf + 4)).
 Proof. exact write_cdr_parameter_eq. Qed.
 
-(* PidIterator::next yields exactly that parameter back when its length fits 16 bits *)
-Theorem C13_iterator_reads_parameter : forall pid v rest,
-  pid_ok pid -> blen v <= 65535 -> pl_next false (param_bytes pid v ++ rest) = PItem pid v rest.
+(* into_bytes = encapsulation header, the parameters of the table in order, sentinel *)
+Theorem C13_into_bytes_shape : forall (R : Type) (wt : list (wrow R)) (r : R),
+  (forall row v, In row wt -> In v (w_emit row r) -> periodic v) ->
+  tbl_into_bytes wt r = PL_HEADER ++ params_bytes false (items_of wt r) ++ [1; 0; 0; 0].
+Proof. exact @tbl_into_bytes_eq. Qed.
+
+(* PidIterator::next yields exactly that parameter back when its length fits 16 bits, in either endianness *)
+Theorem C13_iterator_reads_parameter : forall be pid v rest,
+  pid_ok pid -> blen v <= 65535 -> pl_next be (param_bytes be pid v ++ rest) = PItem pid v rest.
 Proof. exact pl_next_param. Qed.
 
 (* ------------------------------------------------------------------ generic theorems *)
@@ -35,11 +41,16 @@ Theorem C13_pl_roundtrip :
     tbl_from_bytes rt build (tbl_into_bytes wt r) = Ok (build t).
 Proof. exact @pl_roundtrip. Qed.
 
+(* a received list = 4-byte header hdr (its second byte selects the endianness be), any prefix ps
+   of well-formed parameters, then anything (tail): inserting an unknown parameter u after ps does
+   not change the result *)
 Theorem C13_unknown_pids_ignored :
-  forall (R : Type) (rt : list rrow) (build : tuple_of rt -> R) (ps : list (Z * bytes)) (u : Z * bytes) (tail : bytes),
-    ps <> [] -> Forall item_ok ps -> item_ok u -> ~ In (fst u) (map r_pid rt) ->
-    hdr_endianness (pl_hdr (params_bytes ps ++ tail)) = Ok false ->
-    tbl_from_bytes rt build (params_bytes (ps ++ [u]) ++ tail) = tbl_from_bytes rt build (params_bytes ps ++ tail).
+  forall (R : Type) (rt : list rrow) (build : tuple_of rt -> R) (be : bool) (hdr : bytes)
+         (ps : list (Z * bytes)) (u : Z * bytes) (tail : bytes),
+    blen hdr = 4 -> hdr_endianness (pl_hdr hdr) = Ok be -> Forall item_ok ps -> item_ok u ->
+    ~ In (fst u) (map r_pid rt) ->
+    tbl_from_bytes rt build (hdr ++ params_bytes be (ps ++ [u]) ++ tail)
+    = tbl_from_bytes rt build (hdr ++ params_bytes be ps ++ tail).
 Proof. exact @unknown_pids_ignored_tbl. Qed.
 
 Theorem C13_decode_total_generic :
@@ -81,31 +92,35 @@ Theorem C13_participant_roundtrip :
     participant_from_bytes (participant_into_bytes r) = Ok r.
 Proof. exact participant_roundtrip. Qed.
 
-(* unknown / vendor-specific parameters, inserted after any prefix ps of a received little-endian
-   list (hence anywhere before the sentinel), whatever follows (tail) *)
+(* unknown / vendor-specific parameters, inserted after any prefix ps of a received big- or
+   little-endian list (hence anywhere before the sentinel), whatever follows (tail) *)
 Theorem C13_topic_unknown_pids_ignored :
-  forall (TI : Type) (ti_dec : xdec TI) ps u tail,
-    ps <> [] -> Forall item_ok ps -> item_ok u -> ~ In (fst u) (map r_pid (topic_rtable TI ti_dec)) ->
-    hdr_endianness (pl_hdr (params_bytes ps ++ tail)) = Ok false ->
-    topic_from_bytes TI ti_dec (params_bytes (ps ++ [u]) ++ tail) = topic_from_bytes TI ti_dec (params_bytes ps ++ tail).
+  forall (TI : Type) (ti_dec : xdec TI) be hdr ps u tail,
+    blen hdr = 4 -> hdr_endianness (pl_hdr hdr) = Ok be -> Forall item_ok ps -> item_ok u ->
+    ~ In (fst u) (map r_pid (topic_rtable TI ti_dec)) ->
+    topic_from_bytes TI ti_dec (hdr ++ params_bytes be (ps ++ [u]) ++ tail)
+    = topic_from_bytes TI ti_dec (hdr ++ params_bytes be ps ++ tail).
 Proof. exact topic_unknown_pids_ignored. Qed.
 Theorem C13_publication_unknown_pids_ignored :
-  forall (TI : Type) (ti_dec : xdec TI) ps u tail,
-    ps <> [] -> Forall item_ok ps -> item_ok u -> ~ In (fst u) (map r_pid (dwriter_rtable TI ti_dec)) ->
-    hdr_endianness (pl_hdr (params_bytes ps ++ tail)) = Ok false ->
-    dwriter_from_bytes TI ti_dec (params_bytes (ps ++ [u]) ++ tail) = dwriter_from_bytes TI ti_dec (params_bytes ps ++ tail).
+  forall (TI : Type) (ti_dec : xdec TI) be hdr ps u tail,
+    blen hdr = 4 -> hdr_endianness (pl_hdr hdr) = Ok be -> Forall item_ok ps -> item_ok u ->
+    ~ In (fst u) (map r_pid (dwriter_rtable TI ti_dec)) ->
+    dwriter_from_bytes TI ti_dec (hdr ++ params_bytes be (ps ++ [u]) ++ tail)
+    = dwriter_from_bytes TI ti_dec (hdr ++ params_bytes be ps ++ tail).
 Proof. exact dwriter_unknown_pids_ignored. Qed.
 Theorem C13_subscription_unknown_pids_ignored :
-  forall (TI : Type) (ti_dec : xdec TI) ps u tail,
-    ps <> [] -> Forall item_ok ps -> item_ok u -> ~ In (fst u) (map r_pid (dreader_rtable TI ti_dec)) ->
-    hdr_endianness (pl_hdr (params_bytes ps ++ tail)) = Ok false ->
-    dreader_from_bytes TI ti_dec (params_bytes (ps ++ [u]) ++ tail) = dreader_from_bytes TI ti_dec (params_bytes ps ++ tail).
+  forall (TI : Type) (ti_dec : xdec TI) be hdr ps u tail,
+    blen hdr = 4 -> hdr_endianness (pl_hdr hdr) = Ok be -> Forall item_ok ps -> item_ok u ->
+    ~ In (fst u) (map r_pid (dreader_rtable TI ti_dec)) ->
+    dreader_from_bytes TI ti_dec (hdr ++ params_bytes be (ps ++ [u]) ++ tail)
+    = dreader_from_bytes TI ti_dec (hdr ++ params_bytes be ps ++ tail).
 Proof. exact dreader_unknown_pids_ignored. Qed.
 Theorem C13_participant_unknown_pids_ignored :
-  forall ps u tail,
-    ps <> [] -> Forall item_ok ps -> item_ok u -> ~ In (fst u) (map r_pid participant_rtable) ->
-    hdr_endianness (pl_hdr (params_bytes ps ++ tail)) = Ok false ->
-    participant_from_bytes (params_bytes (ps ++ [u]) ++ tail) = participant_from_bytes (params_bytes ps ++ tail).
+  forall be hdr ps u tail,
+    blen hdr = 4 -> hdr_endianness (pl_hdr hdr) = Ok be -> Forall item_ok ps -> item_ok u ->
+    ~ In (fst u) (map r_pid participant_rtable) ->
+    participant_from_bytes (hdr ++ params_bytes be (ps ++ [u]) ++ tail)
+    = participant_from_bytes (hdr ++ params_bytes be ps ++ tail).
 Proof. exact participant_unknown_pids_ignored. Qed.
 (* every vendor-specific pid (0x8000..0xffff, negative as i16) is unknown to all four decoders *)
 Theorem C13_vendor_pids_are_unknown :
@@ -127,14 +142,19 @@ Theorem C13_decode_total_subscription :
   forall (TI : Type) (ti_dec : xdec TI), (forall be v p, ti_dec be v <> Panic p) ->
     forall d p, dreader_from_bytes TI ti_dec d <> Panic p.
 Proof. exact dreader_from_bytes_total. Qed.
-(* the participant decoder is total outside one family: a PID_DOMAIN_TAG value whose string
-   length field is 0 (String::cdr_deserialize: `length as usize - 1`) *)
-Theorem C13_decode_total_participant_unless_zero_length_tag :
-  forall d, domain_tag_len0 d = false -> forall p, participant_from_bytes d <> Panic p.
+Theorem C13_decode_total_participant : forall d p, participant_from_bytes d <> Panic p.
 Proof. exact participant_from_bytes_total. Qed.
-Theorem C13_decode_total_participant_refuted :
-  exists d, domain_tag_len0 d = true /\ participant_from_bytes d = Panic PANIC_STRING_LEN0.
-Proof. exact (ex_intro _ witness_d14 participant_panic_witness). Qed.
+
+(* ------------------------------------------------------------------ regression of the two repaired defects *)
+(* c095065: a PID_DOMAIN_TAG string of length 0 is InvalidData (it was a panic) *)
+Theorem C13_zero_length_tag_is_an_error : participant_from_bytes witness_d14 = Err E_INVALID.
+Proof. exact zero_length_tag_is_an_error. Qed.
+(* 0c275fa: a big-endian participant announcement decodes (it was NotEnoughData: the header was
+   read as PID_PARTICIPANT_LEASE_DURATION) *)
+Theorem C13_big_endian_participant_decodes :
+  exists r, participant_from_bytes witness_be_participant = Ok r
+            /\ p_key r = witness_key /\ p_available_builtin_endpoints r = 805367871 /\ p_lease_duration r = (30, 5).
+Proof. exact be_participant_decodes. Qed.
 
 (* ------------------------------------------------------------------ the unconditional round trip is false *)
 (* 70000 bytes of user data: the announcement decodes to a participant without user data *)
@@ -185,8 +205,10 @@ Print Assumptions C13_vendor_pids_are_unknown.
 Print Assumptions C13_decode_total_topic.
 Print Assumptions C13_decode_total_publication.
 Print Assumptions C13_decode_total_subscription.
-Print Assumptions C13_decode_total_participant_unless_zero_length_tag.
-Print Assumptions C13_decode_total_participant_refuted.
+Print Assumptions C13_decode_total_participant.
+Print Assumptions C13_zero_length_tag_is_an_error.
+Print Assumptions C13_big_endian_participant_decodes.
+Print Assumptions C13_into_bytes_shape.
 Print Assumptions C13_u16_length_refutes_roundtrip.
 Print Assumptions C13_limited_max_refutes_roundtrip.
 Print Assumptions C13_oracle_sound.
